@@ -67,7 +67,8 @@ def oracle(case):
     rows = case["rows"]  # list of list of tokens
     c = len(rows[0])
     textcol = case.get("textcol")
-    curves = [("C%d" % j, "", "", "") for j in range(c)]
+    declared = case.get("declared", c)  # unwrapped files may declare fewer curves than there are columns
+    curves = [("C%d" % j, "", "", "") for j in range(declared)]
     prows = rows
     if case.get("wrap"):
         prows = []
@@ -81,6 +82,8 @@ def oracle(case):
     text = lastext.render(spec)
     policy = case["policy"]
     las = read_text(text, engine=case["engine"], null_policy=policy)
+    if declared != c:
+        out.cls("undeclared-columns")
     out.cls("policy-" + policy, "engine-" + case["engine"], "wrapped" if case.get("wrap") else "unwrapped",
             "null=" + case["null"], "textcol" if textcol is not None else "numeric-only")
     n_eq_nonindex = sum(1 for r in rows for j, t in enumerate(r) if j != 0 and j != textcol and float(t) == null)
@@ -162,8 +165,11 @@ def read_cases(draw):
         rows.append(row)
     policy = draw(st.sampled_from(["strict", "strict", "none"]))
     wrap = draw(st.sampled_from([0, 0, 1, 2, 3])) if c >= 2 else 0
-    return dict(side="read", null=null, null_text=null_text, rows=rows, textcol=textcol, policy=policy,
+    case = dict(side="read", null=null, null_text=null_text, rows=rows, textcol=textcol, policy=policy,
                 engine=draw(st.sampled_from(["numpy", "normal"])), wrap=wrap)
+    if not wrap and draw(st.integers(0, 3)) == 0:
+        case["declared"] = draw(st.integers(0, c))
+    return case
 
 
 def read_grid(tier):
